@@ -221,6 +221,9 @@ type world struct {
 	cur     map[int]*live // harness's own record: what a correct table contains
 	idKey   map[string]int
 	hookBad []string // hook called with a symbol that is not the table's current one
+	reuse   bool     // re-insert the same *Symbol object for the same definition
+	pool    map[string]*symbol.Symbol
+	reused  int
 }
 
 var errs = map[int]error{}
@@ -267,6 +270,26 @@ func (w *world) hook(k byte, sb *symbol.Symbol) {
 	w.mu.Lock()
 	w.log = append(w.log, ev{k: k, subj: c})
 	w.mu.Unlock()
+}
+
+// obtain returns the symbol object for a definition: a fresh one, or – in a case that re-uses
+// objects – the very *Symbol built for the same definition earlier (whether it is still in the
+// table, was freed, replaced or removed by Close).
+func (w *world) obtain(d *SymDef) *symbol.Symbol {
+	if !w.reuse {
+		return w.build(d)
+	}
+	if w.pool == nil {
+		w.pool = map[string]*symbol.Symbol{}
+	}
+	key := d.line()
+	if sb, ok := w.pool[key]; ok {
+		w.reused++
+		return sb
+	}
+	sb := w.build(d)
+	w.pool[key] = sb
+	return sb
 }
 
 func (w *world) build(d *SymDef) *symbol.Symbol {
@@ -360,7 +383,7 @@ func (w *world) apply(line string) (ret string, evs []ev, blocked bool) {
 				return
 			}
 			dNew = d
-			sbNew = w.build(d)
+			sbNew = w.obtain(d)
 			ret = showErr(w.tbl.Insert(sbNew))
 		case "free":
 			k, _ := strconv.Atoi(f[1])
@@ -488,6 +511,22 @@ func (w *world) refs() []string {
 		}
 	}
 	return out
+}
+
+// balances: loads minus unloads per symbol over the whole log so far.
+func (w *world) balances() map[int]int {
+	bal := map[int]int{}
+	w.mu.Lock()
+	for _, e := range w.log {
+		switch e.k {
+		case 'L':
+			bal[e.subj]++
+		case 'U':
+			bal[e.subj]--
+		}
+	}
+	w.mu.Unlock()
+	return bal
 }
 
 func (w *world) active() []int {
